@@ -133,6 +133,9 @@ Print Assumptions oneshot_cancel_repaired_returns.
 Example bomb_4_costs : detect_conflicts orig (btbl unary 4) (broot unary) = ROk 32
                        /\ detect_conflicts repaired (btbl unary 4) (broot unary) = ROk 6.
 Proof. split; reflexivity. Qed.
+Example bomb_doc_converts_to_bquery :
+  convert orig (bomb_doc unary 5) [] = ROk (bquery unary 5, 64) /\ gdoc_size (bomb_doc unary 5) = 19.
+Proof. split; reflexivity. Qed.
 Example a_query_converts :
   exists q c, convert repaired
     [GOperation "query" (Some "Q") [] [] [GSpread "F" []; GField (Some "k") "obj" [] [] (Some [GField None "x" [] [] None])];
